@@ -171,6 +171,17 @@ where
     ) {
         let store = stores.get(store_id).unwrap();
         while let Ok(c) = commands_receiver.recv() {
+            #[cfg(similari_verif)]
+            let verif_arg = ((store_id as u64) << 8)
+                | match &c {
+                    Commands::Drop(..) => 0,
+                    Commands::FindBaked(..) => 1,
+                    Commands::Distances(..) => 2,
+                    Commands::Merge(..) => 3,
+                    Commands::Lookup(..) => 4,
+                };
+            #[cfg(similari_verif)]
+            crate::verif_hooks::sched_point("store.cmd.begin", verif_arg);
             match c {
                 Commands::Drop(channel) => {
                     let _r = channel.send(Results::Dropped);
@@ -301,6 +312,8 @@ where
                     }
                 }
             }
+            #[cfg(similari_verif)]
+            crate::verif_hooks::sched_point("store.cmd.end", verif_arg);
         }
     }
 
@@ -477,6 +490,9 @@ where
         let tracks_vec = self.fetch_tracks(tracks);
 
         let res = self.foreign_track_distances(tracks_vec.clone(), feature_class, only_baked);
+
+        #[cfg(similari_verif)]
+        crate::verif_hooks::sched_point("store.owned.sent", tracks_vec.len() as u64);
 
         for t in tracks_vec {
             self.add_track(t).unwrap();
